@@ -48,15 +48,7 @@ func (c *deleteCleaner) Clean(segments []*segment) ([]*segment, error) {
 	c.Logger.Debugf("Cleaning log %s based on retention policy %+v", c.Name, c.Retention)
 	defer c.Logger.Debugf("Finished cleaning log %s", c.Name)
 
-	// Limit by age first.
-	if c.Retention.Age > 0 {
-		segments, err = c.applyAgeLimit(segments)
-		if err != nil {
-			return nil, errors.Wrap(err, "failed to apply age retention limit")
-		}
-	}
-
-	// Next limit by number of messages.
+	// Limit by number of messages first.
 	if c.Retention.Messages > 0 {
 		segments, err = c.applyMessagesLimit(segments)
 		if err != nil {
@@ -64,11 +56,21 @@ func (c *deleteCleaner) Clean(segments []*segment) ([]*segment, error) {
 		}
 	}
 
-	// Lastly limit by number of bytes.
+	// Next limit by number of bytes.
 	if c.Retention.Bytes > 0 {
 		segments, err = c.applyBytesLimit(segments)
 		if err != nil {
 			return nil, errors.Wrap(err, "failed to apply bytes retention limit")
+		}
+	}
+
+	// Lastly limit by age. This goes last because the other limits can remove
+	// a segment that is not expired from in front of one that is, and the age
+	// limit only removes expired segments from the start of the log.
+	if c.Retention.Age > 0 {
+		segments, err = c.applyAgeLimit(segments)
+		if err != nil {
+			return nil, errors.Wrap(err, "failed to apply age retention limit")
 		}
 	}
 
